@@ -2,7 +2,8 @@
    (The store/forward invariants over histories are stated in Properties/C01.v and C09.v on top
    of these decision-level theorems.) *)
 From Coq Require Import ZArith Bool List.
-From KD Require Import Model.Values Model.Compare Model.Validate Proofs.Compare Proofs.Validate.
+From KD Require Import Model.Values Model.Compare Model.Validate Proofs.Compare Proofs.Validate
+     Model.Perm Model.Glob Model.Broker Model.BrokerRun Proofs.Broker Proofs.Store Proofs.StoreDomain.
 
 (* a value other than NotAvailable is accepted by validate()/validate_actuator_value()
    if and only if it lies in the signal's declared domain *)
@@ -33,3 +34,32 @@ Theorem c02_na_iff_no_allowed : forall m,
   validate_datapoint_value m VNA = None <-> vm_allowed m = None.
 Proof. exact validate_na. Qed.
 Print Assumptions c02_na_iff_no_allowed.
+
+(* ---------- over histories (Proofs/Store.v, Proofs/StoreDomain.v) ---------- *)
+(* the store invariant: in every state reachable by ANY finite history of operations (registrations, update
+   batches by any principal, subscriptions, claims, actuations, housekeeping, shutdown) the current value, the
+   previous value (LAG) and the target of every signal are NotAvailable or lie in the signal's declared domain *)
+Theorem c02_store_inv : forall h id e,
+  lookup_id (entries (st_db (run_history h))) id = Some e ->
+  in_domain_or_na (vmeta_of (e_meta e)) (d_value (e_dp e)) /\
+  in_domain_or_na (vmeta_of (e_meta e)) (d_value (e_lag e)) /\
+  (forall d, e_target e = Some d -> in_domain_or_na (vmeta_of (e_meta e)) (d_value d)).
+Proof. exact history_store_in_domain. Qed.
+Print Assumptions c02_store_inv.
+
+(* ... hence so is whatever a reader (get, snapshot, notification, query input) is handed *)
+Theorem c02_read_in_domain : forall h p now id e,
+  read_entry (st_db (run_history h)) p now id = inl e ->
+  in_domain_or_na (vmeta_of (e_meta e)) (d_value (e_dp e)) /\
+  (forall d, e_target e = Some d -> in_domain_or_na (vmeta_of (e_meta e)) (d_value d)).
+Proof. exact history_read_in_domain. Qed.
+Print Assumptions c02_read_in_domain.
+
+(* a value forwarded to a provider has passed the actuator validation of its signal *)
+Theorem c02_forwarded_validated : forall st p id v st',
+  actuate st p id v = (st', None) ->
+  exists e, read_entry (st_db st) p (st_now st) id = inl e /\
+            validate_actuator_value (vmeta_of (e_meta e)) v = None.
+Proof. exact actuate_forwards_validated. Qed.
+Print Assumptions c02_forwarded_validated.
+
